@@ -3,7 +3,7 @@
 import re, sys, json, os
 rows = []
 for l in open(sys.argv[1]):
-    m = re.match(r'(C\d\d[a-h]): ?(.*)', l.strip())
+    m = re.match(r'(C\d\d[a-i]): ?(.*)', l.strip())
     if not m:
         continue
     sid, hits = m.group(1), m.group(2).split()
